@@ -114,7 +114,7 @@ func mustReject(t *rapid.T, s *rt.Sub, iss *type3.RateLimitedIssuer, req []byte,
 }
 
 func TestIssuer(t *testing.T) {
-	s := rt.S("issuer").SetRule("honest encoded requests for issuers with 1..3 registered origins (sometimes incl. the empty name), then: single-bit flips (positions stratified by field), unregistered origin variants (fresh, prefix, extension, case, NUL-padding look-alikes), request encrypted to another issuer's name key, signature by another key over the same bytes, signature stripped, bytes appended, truncation; plus requests CRAFTED with go-hpke and crypto/ecdsa directly (attacker's own signing key): valid (health), request key in the AAD differs from the wire, name-key id mismatch, unregistered origin inside, signature over other bytes, signature by a key other than request_key, undecodable request key, truncated inner request. oracle: every such request => error and no output; honest and crafted-valid requests => served. non-trivial = every transformed request; distinct by (request, class)")
+	s := rt.S("issuer").SetRule("honest encoded requests for issuers with 1..3 registered origins (sometimes incl. the empty name), then: single-bit flips (positions stratified by field), unregistered origin variants (fresh, prefix, extension, case, NUL-padding look-alikes), request encrypted to another issuer's name key, signature by another key over the same bytes, signature stripped, bytes appended, truncation; plus requests CRAFTED with go-hpke and crypto/ecdsa directly (attacker's own signing key): valid (health), request key in the AAD differs from the wire / is missing / cut short / blank, name-key id mismatch, unregistered origin inside, signature over other bytes, signature by a key other than request_key, undecodable request key, truncated inner request. oracle: every such request => error and no output; honest and crafted-valid requests => served. non-trivial = every transformed request; distinct by (request, class)")
 	rt.Check(t, 60, 16000, func(t *rapid.T) {
 		defer rt.Entropy(gen.Seed().Draw(t, "entropy"))()
 		sess, err := gen.NewSession(t, 3, gen.SessionOpts{RKeyIdx: -1})
@@ -339,6 +339,17 @@ func TestIssuer(t *testing.T) {
 		c := base
 		c.aadKey = ork
 		mustReject(t, s, iss, c.build(), "crafted-aad-other-request-key")
+		// ... and associated data in which the request key is missing, cut short or blanked: everything else about the
+		// request is valid (wire key, signature by it, registered origin), but the ciphertext is not bound to the request key
+		c = base
+		c.aadKey = nil
+		mustReject(t, s, iss, c.build(), "crafted-aad-without-request-key")
+		c = base
+		c.aadKey = rk[:gen.UniformRange(t, 1, len(rk)-1, "aadcut")]
+		mustReject(t, s, iss, c.build(), "crafted-aad-truncated-request-key")
+		c = base
+		c.aadKey = make([]byte, len(rk))
+		mustReject(t, s, iss, c.build(), "crafted-aad-blank-request-key")
 		c = base
 		c.requestKey = ork // wire key is someone else's; signature by our key
 		mustReject(t, s, iss, c.build(), "crafted-signed-by-other-than-request-key")
